@@ -37,6 +37,8 @@ class SymFloat:
     __str__ = __repr__
 
     def __format__(self, spec):
+        if spec and spec[-1] in "bcdoxX":
+            raise ValueError("Unknown format code '%s' for object of type 'float'" % spec[-1])
         return "<SymFloat>"
 
     def __hash__(self):
